@@ -59,6 +59,15 @@ def main():
     ap.add_argument("--search"); ap.add_argument("--replay")
     a = ap.parse_args()
     mod = W.load_script()
+    # whole-run budget (the unchanged tree needs ~25 s quick, a few minutes thorough): a script that does not terminate must not hang the check
+    import threading
+    budget = 900 if (a.tier == "quick" or a.search or a.replay) else 5400
+
+    def _give_up():
+        print(json.dumps({"violations": [{"cfg": None, "interruptions": [], "what": "the harness exceeded its time budget of %d s: the script under test (or its recovery) does not terminate" % budget,
+                                          "site": "orchestration script termination"}], "bounded": []}), flush=True)
+        os._exit(0)
+    _t = threading.Timer(budget, _give_up); _t.daemon = True; _t.start()
     if a.replay:
         d = json.load(open(a.replay))["input"]
         cfg, ints = d["cfg"], [tuple(x) if isinstance(x, list) else x for x in d["interruptions"]]
